@@ -356,7 +356,11 @@ func genC07(r *vh.Runner) {
 // its (user, key) at the function boundary the session code uses: the grants
 // may be handed out once (a second session holding them could spend them again).
 func genC07Concurrent(r *vh.Runner) {
-	batches := r.Pick(32, 640)
+	concurrentConsume(r, "C07:one-grant-handed-to-several-sessions", r.Pick(32, 640))
+}
+
+// concurrentConsume is shared by C05 (one live grant admits one login) and C07.
+func concurrentConsume(r *vh.Runner, signature string, batches int) {
 	const rounds = 1500
 	for b := 0; b < batches; b++ {
 		r.Case(fmt.Sprintf("concurrent-consume/%d", b), map[string]any{"batch": b, "rounds": rounds}, func(c *vh.Case) {
@@ -395,7 +399,7 @@ func genC07Concurrent(r *vh.Runner) {
 				}
 				r.Count("evaluations", 1)
 				if total > 1 {
-					c.Violate("C07:one-grant-handed-to-several-sessions", map[string]any{"round": k, "workers": workers, "grants_handed_out": got})
+					c.Violate(signature, map[string]any{"round": k, "workers": workers, "grants_handed_out": got})
 				}
 				if holders == 1 {
 					r.Count("concurrent_lookups_one_winner", 1)
